@@ -12,6 +12,7 @@
   py2coq.py storage    <repo> <out.v>   sdevice.py: deep_damage_at_deriv / charge_costs_deriv / deriv (graceful fallback per method)
   py2coq.py constraints <repo> <out.v>  the `constraints` properties (closure lists) of device / sdevice / deviceset / subbalanced / mf / tworatio
   py2coq.py solve      <repo> <out.v>   solve.py: solve() and step() with the optimiser calls as parameters
+  py2coq.py utils      <repo> <out.v>   utils.py: base_soc / soc / sustainment_matrix / power_matrix
   py2coq.py projection <repo> <out.v>   projection/projection.py: every region method incl. the Dykstra loop (graceful fallback per method)
 
 Anything outside the whitelist raises Unsupported naming the file, line and node: the caller treats that
@@ -273,6 +274,9 @@ def main(argv):
     elif what == 'solve':
       from solve_tx import gen_solve
       text = gen_solve(repo)
+    elif what == 'utils':
+      from utils_tx import gen_utils
+      text = gen_utils(repo)
     elif what == 'projection':
       from stmt_tx import gen_projection
       text = gen_projection(repo)
